@@ -17,7 +17,7 @@ import signal
 import sys
 import time
 
-REPO_SRC = '/repo/src'
+REPO_SRC = os.environ.get('VERIF_REPO_SRC', '/repo/src')   # overridden only by tools/sensitivity.py (mutated scratch copies)
 
 
 class Violation(Exception):
@@ -146,6 +146,20 @@ class watchdog:
         return False
 
 
+def library_exception(e, case):
+    """An unexpected exception that escaped from *library* code (some traceback frame lies in the repository's
+    sources) while a property called a public method with valid arguments is a violation of that property
+    (the method did not return what it documents); one raised by the harness's own code is a harness error."""
+    import traceback
+    root = os.path.realpath(REPO_SRC)
+    frames = traceback.extract_tb(e.__traceback__)
+    if any(os.path.realpath(f.filename).startswith(root + os.sep) for f in frames):
+        where = next(f for f in reversed(frames) if os.path.realpath(f.filename).startswith(root + os.sep))
+        return Violation(f'library_raised:{type(e).__name__}', case,
+                         f'{type(e).__name__}: {str(e)[:300]} (raised through {os.path.basename(where.filename)}:{where.name})')
+    return None
+
+
 def bucket_of(v):
     """Coarse identity of a failure, used only to continue the search past it inside one shard."""
     return v.kind
@@ -182,6 +196,16 @@ def run_hypothesis(ctx, strategy, check, max_examples, label='main', rounds=4, s
                     ctx.count('suppressed_repeat:' + bucket_of(v))
                     return
                 raise
+            except HarnessError:
+                raise
+            except Exception as e:  # noqa: BLE001
+                v = library_exception(e, case)
+                if v is None:
+                    raise            # raised by the harness itself: a harness error, never a violation
+                if bucket_of(v) in ctx.suppressed:
+                    ctx.count('suppressed_repeat:' + bucket_of(v))
+                    return
+                raise v from e
 
         test = hypothesis.seed(hseed)(st_settings(given(strategy)(body)))
         try:
@@ -204,7 +228,12 @@ def run_enumeration(ctx, cases, check, name, max_violations=5):
                 check(case, ctx)
         except CaseTimeout:
             ctx.timeouts += 1
-        except Violation as v:
+        except (Violation, Exception) as v:  # noqa: BLE001
+            if not isinstance(v, Violation):
+                lv = None if isinstance(v, HarnessError) else library_exception(v, case)
+                if lv is None:
+                    raise
+                v = lv
             if bucket_of(v) in ctx.suppressed:
                 ctx.count('suppressed_repeat:' + bucket_of(v))
                 continue
@@ -214,3 +243,27 @@ def run_enumeration(ctx, cases, check, name, max_violations=5):
                 ctx.inconclusive.append(f'{name}: stopped after {max_violations} violations')
                 return
     ctx.exhaustive[name] = n
+
+
+def guarded(ctx, case, fn):
+    """Run fn() inside a hand-written enumeration loop: a Violation, or an unexpected exception that escaped from
+    library code, is recorded (once per bucket) instead of aborting the shard. Returns True when fn() completed."""
+    try:
+        with watchdog():
+            fn()
+        return True
+    except CaseTimeout:
+        ctx.timeouts += 1
+        return False
+    except HarnessError:
+        raise
+    except Exception as e:  # noqa: BLE001
+        v = e if isinstance(e, Violation) else library_exception(e, case)
+        if v is None:
+            raise
+        if bucket_of(v) in ctx.suppressed:
+            ctx.count('suppressed_repeat:' + bucket_of(v))
+        else:
+            ctx.record_violation(v, shrunk=False)
+            ctx.suppressed.add(bucket_of(v))
+        return False
